@@ -195,6 +195,43 @@ func readTokens(env *zygo.Zlisp, src string) ([]zygo.Sexp, bool) {
 	return arr.Val, true
 }
 
+// expandDirect translates a token array with the exported InfixExpandArray (what GenerateInfix and
+// the infixExpand builder call), canonical statement list.
+func expandDirect(env *zygo.Zlisp, toks []zygo.Sexp) (res string) {
+	defer func() {
+		if r := recover(); r != nil {
+			res = "PANIC"
+		}
+	}()
+	xs, err := zygo.InfixExpandArray(env, &zygo.SexpArray{Val: toks, Env: env})
+	if err != nil {
+		return "ERR"
+	}
+	parts := make([]string, len(xs))
+	for i, x := range xs {
+		parts[i] = canon(x)
+	}
+	return strings.Join(parts, " ;; ")
+}
+
+// retranslate: translating a block is a function of its tokens - it must not change the token
+// array (a block that is the argument of a call or the body of a loop is translated every time it
+// runs), and translating the same array twice must give the same statement list.
+// Returns "" when that holds, else a description used as the implementation's observable.
+func retranslate(env *zygo.Zlisp, toks []zygo.Sexp) string {
+	before := tokItems(toks)
+	x1 := expandDirect(env, toks)
+	after := tokItems(toks)
+	if after != before {
+		return "TOKENS-MUTATED-BY-TRANSLATION first=" + x1 + " tokens-after=" + after
+	}
+	x2 := expandDirect(env, toks)
+	if x1 != x2 {
+		return "RETRANSLATION-DIFFERS first=" + x1 + " second=" + x2
+	}
+	return ""
+}
+
 // implExpand: the statement list (infixExpand {src}) returns, canonical.
 func implExpand(env *zygo.Zlisp, src string) string {
 	r := lib.Eval(env, "(infixExpand {"+src+"})", budget)
@@ -397,6 +434,65 @@ type gen struct {
 	itemMemo map[string]string
 }
 
+// contexts a block is evaluated in (besides the top level): body is either the block text "{...}" or
+// its prefix forms; one is the body as ONE expression.
+const fnPre = "(defn w0 [k] k) (defn w1 [k] (cond (> k 0) (w (- k 1)) false)) "
+
+func wrapCtx(ctx, body, one string) string {
+	switch ctx {
+	case "fn-nontail": // the block is NOT the last expression of a recursive function
+		return fnPre + "(def lg []) (defn w [n] " + body + " (set lg (append lg n)) n) [(w 3) lg]"
+	case "fn-tail":
+		return fnPre + "(def lg []) (defn w [n] (set lg (append lg n)) " + body + ") [(w 3) lg]"
+	case "loop": // translated again on every turn
+		return "(for [(def i 0) (< i 3) (set i (+ i 1))] " + body + ") [x y]"
+	case "arg-twice": // argument of a call inside a function called three times
+		return "(defn g [lo hi] (t " + one + ")) [(g 1 3) (g 1 3) (g 2 4)]"
+	case "let":
+		return "(let [q 1] " + body + ")"
+	}
+	return body
+}
+
+func oneExpr(forms []string) string {
+	if len(forms) == 1 {
+		return forms[0]
+	}
+	return "(begin " + strings.Join(forms, " ") + ")"
+}
+
+func evalSource(text string, dirty bool) string {
+	ee := getEvalEnv()
+	r := lib.Eval(ee.env, text, budget)
+	o := ee.obs(r)
+	pooled = nil // contexts define functions: never reuse
+	_ = dirty
+	return o
+}
+
+// ctxCase: like parseCase, but the block is evaluated inside the context ctx; the check evaluates the
+// specification's prefix forms in the SAME context (stage 2).
+func (g *gen) ctxCase(ctx, src string) {
+	key := "ctx:" + ctx + ":" + src
+	if g.seen[key] {
+		return
+	}
+	g.seen[key] = true
+	toks, ok := readTokens(g.env, src)
+	if !ok {
+		g.unread++
+		g.out.Dist["unreadable"]++
+		return
+	}
+	impl := escFinal(implExpand(g.env, src))
+	if m := retranslate(g.env, toks); m != "" {
+		impl = escFinal(m)
+	}
+	blk := "{" + src + "}"
+	val := evalSource(wrapCtx(ctx, blk, blk), true)
+	g.out.Case(tokItems(toks), impl+"\t"+val+"\t"+escFinal(src)+"\t"+ctx, true, "ctx-"+ctx)
+}
+
 // parseCase: correspondence on the implementation's own token list.
 func (g *gen) parseCase(src string, withEval bool, tags ...string) {
 	if g.seen[src] {
@@ -410,6 +506,9 @@ func (g *gen) parseCase(src string, withEval bool, tags ...string) {
 		return
 	}
 	impl := escFinal(implExpand(g.env, src))
+	if m := retranslate(g.env, toks); m != "" {
+		impl = escFinal(m)
+	}
 	if impl == "ERR" && compilePanics(g.env2, src) {
 		// (infixExpand ..) runs under the VM's recover and reports a panic as an error; compiling
 		// the block through LoadString shows whether the expander really panicked
@@ -439,6 +538,44 @@ func (g *gen) item(text string) string {
 
 func isDigitStart(s string) bool {
 	return len(s) > 0 && (s[0] >= '0' && s[0] <= '9' || s[0] == '.')
+}
+
+// sliceCase: the VALUE of an index / slice of the 6-element array v against the model of
+// SexpArraySelector.RHS / sliceBounds and the Go-slicing specification (runner input "#slice 6 <selector>")
+func (g *gen) sliceCase(src, sel string) {
+	if g.seen["sl:"+src] {
+		return
+	}
+	g.seen["sl:"+src] = true
+	ee := getEvalEnv()
+	r := lib.Eval(ee.env, "{"+src+"}", budget)
+	var impl string
+	switch r.Class {
+	case lib.OutValue:
+		impl = canon(r.Val)
+		if as, ok := r.Val.(*zygo.SexpArraySelector); ok {
+			// the block's value is the (lazy) selector: materialise it as any use of the value does
+			func() {
+				defer func() {
+					if rr := recover(); rr != nil {
+						impl = "PANIC"
+					}
+				}()
+				if x, err := as.RHS(ee.env); err != nil {
+					impl = "ERR"
+				} else {
+					impl = canon(x)
+				}
+			}()
+		}
+	case lib.OutError:
+		impl = "ERR"
+	case lib.OutPanic:
+		impl = "PANIC"
+	default:
+		impl = strings.ToUpper(r.Class)
+	}
+	g.out.Case("#slice 6 "+sel, escFinal(impl)+"\t\t"+escFinal(src), true, "slice-values")
 }
 
 // commentCase: the block text with comments inserted must be read as the same tokens as the text
@@ -807,8 +944,57 @@ func main() {
 		g.commentCase(b, i%2 == 0)
 	}
 
+	// E3c. blocks inside other code: not in tail position of a recursive function (self call as the
+	// last statement), in tail position, as the body of a loop, as the argument of a call that runs
+	// several times, in a let
+	for _, src := range []string{"if n > 0 { (w (- n 1)) }", "if n > 0 (w (- n 1))", "x = x + n; if n > 0 { (w (- n 1)) } else { 0 }",
+		"if n > 1 { (w (- n 1)) } else if n > 0 { (w (- n 1)) }", "y += n; if n > 0 (w (- n 1)) else 0", "(w0 n)", "x += n", "n > 0 and (w1 n)",
+		"if n == 0 0 else n + (w (- n 1))", "x = n * 2; x"} {
+		g.ctxCase("fn-nontail", src)
+		g.ctxCase("fn-tail", src)
+	}
+	for _, src := range []string{"x += v[i:][0]", "y = y + i * 2", "x = x + v[i]", "x += v[:i + 1][i]", "if i > 0 x += i else y += 1", "x++; y = x * i", "y += v[i:i + 2][1]"} {
+		g.ctxCase("loop", src)
+	}
+	for _, src := range []string{"v[lo:hi][0]", "v[lo:][1]", "v[:hi]", "lo + hi * 2", "v[lo]", "v[lo: hi]", "v[lo :hi][1]", "v[lo:lo + 1]", "x = lo; v[x:hi][0]", "h.j.m[lo:][0]"} {
+		g.ctxCase("arg-twice", src)
+	}
+	for _, src := range []string{"x = q + 1; x * 2", "v[q:][0]", "if q > 0 x = 1 else x = 2", "y += q"} {
+		g.ctxCase("let", src)
+	}
+
+	// E3d. what a slice selects (Go slicing: 0 <= lo <= hi <= len, defaults 0 and len) and what an
+	// index selects: every bound in -1..7 on the 6-element array v, literal, by variable, computed
+	bvals := []int{-1, 0, 1, 2, 3, 5, 6, 7}
+	bform := func(k int, style int) (string, string) { // (setup statement, bound text)
+		switch style {
+		case 1:
+			return fmt.Sprintf("x = %d; ", k), "x"
+		case 2:
+			return "", fmt.Sprintf("a - 2 + %d", k) // a is 2
+		}
+		return "", strconv.Itoa(k)
+	}
+	for style := 0; style < 3; style++ {
+		for _, lo := range bvals {
+			sl, tl := bform(lo, style)
+			g.sliceCase(sl+"v["+tl+"]", fmt.Sprintf("%d", lo))
+			g.sliceCase(sl+"v["+tl+":]", fmt.Sprintf("%d :", lo))
+			g.sliceCase(sl+"v[:"+tl+"]", fmt.Sprintf(": %d", lo))
+			for _, hi := range bvals {
+				if style == 1 {
+					g.sliceCase(fmt.Sprintf("x = %d; y = %d; v[x:y]", lo, hi), fmt.Sprintf("%d : %d", lo, hi))
+				} else {
+					_, th := bform(hi, style)
+					g.sliceCase("v["+tl+":"+th+"]", fmt.Sprintf("%d : %d", lo, hi))
+				}
+			}
+		}
+	}
+	g.sliceCase("v[:]", ":")
+
 	// E4. index contents of every token length 0..3 (thorough 4) over a small alphabet: v[ ... ]
-	salpha := []string{"a", "1", "+", "++", "--", "not", "b", "[0]", "-", ":", "x"}
+	salpha := []string{"a", "1", "+", "++", "--", "not", "b", "[0]", "-", ":", "x", "a:"}
 	smax := 3
 	if thorough {
 		smax = 4
@@ -904,12 +1090,16 @@ func stage2(path string, out *lib.Out, args lib.Args) {
 	sc.Buffer(make([]byte, 1<<20), 1<<24)
 	unesc := strings.NewReplacer("\\\\", "\\", "\\t", "\t", "\\n", "\n")
 	for sc.Scan() {
-		parts := strings.SplitN(sc.Text(), "\t", 2)
-		if len(parts) != 2 {
+		parts := strings.SplitN(sc.Text(), "\t", 3)
+		if len(parts) != 3 {
 			continue
 		}
-		forms := strings.Split(unesc.Replace(parts[1]), " ;; ")
-		out.Case(parts[0], evalForms(forms), false, "prefix-eval")
+		forms := strings.Split(unesc.Replace(parts[2]), " ;; ")
+		if parts[1] == "" {
+			out.Case(parts[0], evalForms(forms), false, "prefix-eval")
+		} else {
+			out.Case(parts[0], evalSource(wrapCtx(parts[1], strings.Join(forms, " "), oneExpr(forms)), true), false, "prefix-eval-ctx")
+		}
 	}
 	out.Rule = "stage 2: evaluation of the specification's prefix forms"
 	out.Close(args.Stats)
